@@ -476,7 +476,7 @@ def router_evidence(rule):
     def f(agg, samples, distinct, tier):
         return cov(agg.get('histories', 0), distinct, rule, samples,
                    observed=pick(agg, 'histories', 'ops', 'notifies', 'wildcardNotifies', 'multiReceiverNotifies', 'byValueMultiReceiver', 'calls', 'shrinks',
-                                 'removedKeys', 'measures', 'existsProbes', 'probesAfterShrink', 'fullShrinks', 'lazyRemovals', 'nontrivialCases', 'universeKeys', 'specialRuns', 'longLifeCycles', 'deepKeyRuns', 'throwingObserverRuns'),
+                                 'removedKeys', 'measures', 'existsProbes', 'probesAfterShrink', 'fullShrinks', 'lazyRemovals', 'nontrivialCases', 'universeKeys', 'specialRuns', 'longLifeCycles', 'deepKeyRuns', 'throwingObserverRuns', 'nestedNotifyRuns'),
                    operations=agg.get('opCount', {}), signatures_by_depth=agg.get('signatures', {}), routers=agg.get('routers', {}))
     return f
 
